@@ -51,6 +51,40 @@ def c20(tier):
     return chk.finish()
 
 
+def c19(tier):
+    import re
+    chk = Check("C19", tier)
+    thorough = tier == "thorough"
+    s = seed()
+    chk.rule = ("model: writer buffer + the transport's write-all loop (progress in the future) + kernel buffer of "
+                "capacity K with partial writes + reader, all interleavings: the peer's bytes are a prefix of the sent "
+                "frames (Intact) and everything arrives without cancellation; with CancelSend TLC exhibits the duplicated "
+                "prefix (the open finding); implementation: real Unix sockets through zlink-tokio and zlink-smol "
+                "(bound and inherited-fd listeners, 1..8 connections, both directions at once, sizes 0 B..1 MiB, slow and "
+                "fast readers, abandoned sends); per connection/direction the program-ordered send and receive lists are "
+                "validated by TLC; non-trivial = every scenario (distinct seeds/plans)")
+    chk.assumptions = ["kernel scheduling and partial writes are sampled, not enumerated (the model enumerates them)",
+                       "a reader stops when nothing arrives for 400 ms after its sender finished"]
+    _model(chk, "MCTransport", "MCTransport_a.cfg", "no-cancel", coverage=False)
+    _model(chk, "MCTransport", "MCTransport_cancel.cfg", "cancel-deviation", expect_violation=True)
+    open_kf = [k for k in known_findings("C19") if k.get("status") == "open"]
+    strict = ("TransportTrace", "TransportTrace_strict.cfg")
+    known = ("TransportTrace", "TransportTrace_known.cfg")
+    run_family(chk, "transport", "prod", ["--seed", s, "--n", 200 if thorough else 30, "--mode", "plain"], [strict], "plain")
+    run_family(chk, "transport", "prod", ["--seed", s + 1, "--n", 40 if thorough else 6, "--mode", "big"], [strict], "big")
+    cfg = known if open_kf else strict
+    run_family(chk, "transport", "prod", ["--seed", s + 2, "--n", 40 if thorough else 6, "--mode", "cancel"], [cfg], "cancel")
+    if open_kf and not chk.violations:
+        trace = os.path.join(chk.wdir(), "cancel.ndjson")
+        rr = tlc(cfg[0], cfg[1], workers=1, env_extra={"TRACE": trace}, deque=True, heap="4g", tag="C19-known")
+        witnessed = set(re.findall(r'<<"KNOWN", "([^"]+)">>', rr.out))
+        chk.extra["scenarios_witnessing_known_finding"] = len(witnessed)
+        if witnessed:
+            chk.known(f"{open_kf[0]['what']} (witnessed in {len(witnessed)} scenarios, e.g. {sorted(witnessed)[0]})")
+    chk.nontrivial = chk.traces_ok
+    return chk.finish()
+
+
 def replay_generic(pid, path):
     rp = json.load(open(path))
     chk = Check(pid, "quick")
